@@ -50,7 +50,7 @@ def contracts():
 
 CPS = "csvpath/csvpaths.py"
 CF["CsvPath"].update({"g_identity": "str", "g_preceding": "bool", "g_last_parsed": "str", "g_parse_calls": "int", "metadata": "dict[str,val]"})
-CF["Result"] = {**CF.get("Result", {}), "g_data_file_path": "str"}
+CF["Result"] = {**CF.get("Result", {}), "g_data_file_path": "str", "g_len": "int"}
 CF["ResultsManager"].update({"g_pred": "obj:Result"})
 
 
@@ -71,6 +71,8 @@ def load_contracts():
           ensures={"the_predecessor": "result is self.g_pred"}, why="get_last_named_result returns the predecessor's Result (own contract: get_last_named_result)")
     iface(f"{RM}::ResultsManager.get_last_named_result", {"name": "val", "before": "val"}, returns="none", variant="none_found",
           why="get_last_named_result returns None when no earlier member has a result")
+    iface("csvpath/managers/results/result.py::Result.__len__", {}, returns="int", ensures={"n": "result == self.g_len and result >= 0"},
+          why="len(result) is the number of lines the member collected (0 for an empty result, which makes the object falsy)")
     iface("csvpath/managers/results/result.py::Result.data_file_path", {}, returns="str", ensures={"p": "result == self.g_data_file_path"},
           why="Result.data_file_path is <instance dir>/data.csv (C09)")
     iface("csvpath/csvpath.py::CsvPath.parse", {"csvpath": "str", "disposably": "val"}, modifies=["self.g_last_parsed", "self.g_parse_calls"], returns="val",
@@ -89,6 +91,7 @@ def load_contracts():
         ensures={"reads_the_predecessors_data_file": "csvpath.g_parse_calls == old(csvpath.g_parse_calls) + 1 and "
                                                      "csvpath.g_last_parsed == '$' + self.results_manager.g_pred.g_data_file_path + %s" % match_part,
                  "says_so_in_the_metadata": "'source-mode-source' in csvpath.metadata and same(csvpath.metadata['source-mode-source'], self.results_manager.g_pred.g_data_file_path)"},
+        covers={"an_empty_predecessor_is_still_the_predecessor": "self.results_manager.g_pred.g_len == 0 and csvpath.g_parse_calls == old(csvpath.g_parse_calls) + 1"},
         callee_variants={"ResultsManager.get_last_named_result": "found"},
         property_clauses={"reads_the_predecessors_data_file": "C20", "says_so_in_the_metadata": "C20", "raises:CsvPathsException.must": "C20"},
         doc={"reads_the_predecessors_data_file": "C20: 'a member with source-mode: preceding reads exactly the lines its predecessor collected'"}, **common))
